@@ -281,7 +281,7 @@ def component_corpus():
     return C
 
 
-def _deepen(c):
+def _deepen(c, levels=1):
     """thorough tier: one more symbolic value (U-mode) / tuple (L-mode) where the database stays small"""
     import copy
     import re
@@ -296,16 +296,20 @@ def _deepen(c):
         u = consts + c.m + 1
         if sum(u ** a for a in ar) <= 60:
             c.m += 1
+            if levels >= 2 and c.judge == "lm" and sum((u + 1) ** a for a in ar) <= 36:
+                c.m += 1
     else:
         if c.n < 3 and sum(ar) * (c.n + 1) <= 12:
             c.n += 1
     return c
 
 
-def corpus(tier, extra=()):
+def corpus(tier, extra=(), deepen=1):
+    """deepen: how many extra symbolic values the thorough tier may add per program (2 is affordable for checks with
+    few configurations per program; +3 was measured at > 55 min for C01 and is not used)"""
     cs = _corpus(tier, extra)
     if tier == "thorough":
-        cs = [_deepen(c) for c in cs]
+        cs = [_deepen(c, deepen) for c in cs]
     return cs
 
 
